@@ -24,7 +24,7 @@ lazy_static! {
 pub fn eval_int(expression: Pairs<Rule>) -> i64 {
     PRATT_PARSER
         .map_primary(|primary| match primary.as_rule() {
-            Rule::num => primary.as_str().parse::<i64>().unwrap(),
+            Rule::num => parse_int(primary.as_str()),
             Rule::expr => eval_int(primary.into_inner()),
             _ => unreachable!(),
         })
@@ -39,10 +39,37 @@ pub fn eval_int(expression: Pairs<Rule>) -> i64 {
                     (W(lhs) / W(rhs)).0
                 }
             }
-            Rule::power => lhs.pow(rhs as u32),
+            Rule::power => pow_int(lhs, rhs),
             _ => unreachable!(),
         })
         .parse(expression)
+}
+
+/// Integer literals that do not fit into i64 saturate instead of panicking.
+fn parse_int(s: &str) -> i64 {
+    match s.parse::<i64>() {
+        Ok(x) => x,
+        Err(_) => s.parse::<f64>().unwrap_or(0.0) as i64,
+    }
+}
+
+/// Integer power that wraps on overflow (like `+`, `-` and `*` above) and
+/// uses the full 64-bit exponent; a negative exponent goes through floats.
+fn pow_int(base: i64, exp: i64) -> i64 {
+    if exp < 0 {
+        return (base as f64).powf(exp as f64) as i64;
+    }
+    let mut result = W(1i64);
+    let mut b = W(base);
+    let mut e = exp as u64;
+    while e > 0 {
+        if e & 1 == 1 {
+            result *= b;
+        }
+        b *= b;
+        e >>= 1;
+    }
+    result.0
 }
 
 pub fn eval_float(expression: Pairs<Rule>) -> f64 {
